@@ -32,6 +32,8 @@ type Attempt struct {
 	ReadMs  int     `json:"readms,omitempty"`  // virtual delay before each body read
 	HangMs  int     `json:"hangms,omitempty"`  // cancel: how long the last read blocks before the harness cancels
 	Filler  int     `json:"filler,omitempty"`  // number of 32-byte id-less filler events appended to Stream (so that one connection carries more than the scanner's buffer)
+	Status  int     `json:"status,omitempty"`  // stream: response status (0 = 200)
+	CT      string  `json:"ct,omitempty"`      // stream: Content-Type header ("" = text/event-stream, "none" = header absent); judged by DefaultValidator only
 	NoRead  bool    `json:"noread,omitempty"`  // neterr: the transport fails before reading the request body (a dial failure); it closes the body, as RoundTrippers must
 	ErrKind string  `json:"errkind,omitempty"` // neterr / End=err: "" plain | deadline | canceled: an error that LOOKS like a context error but does not come from the request's context (e.g. a dial or client timeout)
 }
@@ -70,6 +72,38 @@ type Script struct {
 	// since Go 1.23.
 	Cause       bool `json:"cause,omitempty"`
 	ReportCause bool `json:"reportcause,omitempty"`
+	// DefaultValidator: the client validates responses with sse.DefaultValidator ("checks the
+	// content type to be text/event-stream and the response status code to be 200 OK") instead of
+	// the harness's status-only validator.
+	DefaultValidator bool `json:"defaultvalidator,omitempty"`
+}
+
+// contentTypes is the table of Content-Type values the scripts use, with the verdict the
+// documentation of DefaultValidator implies (media types are case-insensitive and may carry
+// parameters).
+var contentTypes = map[string]bool{
+	"":                                  true, // text/event-stream
+	"text/event-stream; charset=utf-8":  true,
+	"text/event-stream;charset=UTF-8":   true,
+	"TEXT/Event-Stream":                 true,
+	"none":                              false, // no header at all
+	"text/plain":                        false,
+	"application/json":                  false,
+	"text/html; charset=utf-8":          false,
+	"application/x-ndjson; text/events": false,
+}
+
+// rejected tells whether the response of attempt a must be refused by the validator in use.
+func (sc Script) rejected(a Attempt) bool {
+	switch {
+	case a.Kind == "reject":
+		return true
+	case a.Kind != "stream":
+		return false
+	case a.Status != 0 && a.Status != 200:
+		return true
+	}
+	return sc.DefaultValidator && !contentTypes[a.CT]
 }
 
 var errCtxCause = errors.New("harness: the cause the request context ended with")
@@ -319,6 +353,12 @@ func run(t *testing.T, sc Script, setup func(conn *sse.Connection, tr *Trace)) (
 
 		cl := &sse.Client{Backoff: sc.Backoff.real()}
 		cl.ResponseValidator = func(r *http.Response) error {
+			if sc.DefaultValidator {
+				if err := sse.DefaultValidator(r); err != nil {
+					return fmt.Errorf("%w: %w", errReject, err)
+				}
+				return nil
+			}
 			if r.StatusCode != 200 {
 				return errReject
 			}
@@ -385,7 +425,18 @@ func run(t *testing.T, sc Script, setup func(conn *sse.Connection, tr *Trace)) (
 				return &http.Response{StatusCode: 503, Header: http.Header{}, Body: io.NopCloser(strings.NewReader("")), Request: r}, nil
 			}
 			body := &scriptedBody{tr: tr, a: a, ctx: r.Context(), cancel: cancel, t0: t0, ctxErr: sc.ctxErrOf}
-			return &http.Response{StatusCode: 200, Header: http.Header{"Content-Type": {"text/event-stream"}}, Body: body, Request: r}, nil
+			resp := &http.Response{StatusCode: 200, Header: http.Header{"Content-Type": {"text/event-stream"}}, Body: body, Request: r}
+			if a.Status != 0 {
+				resp.StatusCode = a.Status
+			}
+			switch a.CT {
+			case "":
+			case "none":
+				resp.Header.Del("Content-Type")
+			default:
+				resp.Header.Set("Content-Type", a.CT)
+			}
+			return resp, nil
 		})}
 		for i := 0; i < sc.NthConn; i++ {
 			_ = cl.NewConnection(req.Clone(ctx))
